@@ -1,6 +1,7 @@
 package props
 
 import (
+	"fmt"
 	"math/big"
 	"strings"
 	"testing"
@@ -22,6 +23,9 @@ type C03Case struct {
 	P     uint   `json:"p"`
 	M     uint8  `json:"m"`
 	Alias string `json:"alias,omitempty"` // which operand the receiver is: "", "x", "y", "u", "xy" (x and y are one variable), "xyz" ...
+	// Zone: the case lies inside the input zone of the known finding F-03c (exact product exponent outside the
+	// range, non-zero addend) and is checked against the weaker two-outcome oracle instead of being excluded.
+	Zone bool `json:"zone,omitempty"`
 }
 
 // genUrel places u relative to the exact product p.
@@ -69,6 +73,55 @@ func genFMA(t *rapid.T, specials bool) C03Case {
 		}
 		c.P = uint(p)
 		c.Alias = rapid.SampledFrom([]string{"", "", "u", "x"}).Draw(t, "alias")
+		return c
+	}
+	if rapid.IntRange(0, 15).Draw(t, "rangeend") == 0 {
+		// the exact product's exponent outside, or within a few units of, the ends of the exponent range; the addend
+		// is a zero (either sign: FMA is then Mul, the IEEE sign rule applies to exact zero products only), an
+		// infinity, or a finite value at the same end of the range (the sum may come back into range) or anywhere
+		xd, yd := h.GenDigits(t, "re.xd", 25), h.GenDigits(t, "re.yd", 25)
+		var target int64 // exponent of x*y up to the normalisation digit
+		if rapid.Bool().Draw(t, "re.low") {
+			target = model.MinExp + int64(rapid.IntRange(-40, 3).Draw(t, "re.off"))
+			if rapid.IntRange(0, 3).Draw(t, "re.far") == 0 {
+				target = model.MinExp - int64(rapid.IntRange(0, 1<<31).Draw(t, "re.offfar"))
+			}
+		} else {
+			target = model.MaxExp + int64(rapid.IntRange(-3, 40).Draw(t, "re.off"))
+			if rapid.IntRange(0, 3).Draw(t, "re.far") == 0 {
+				target = model.MaxExp + int64(rapid.IntRange(0, 1<<31).Draw(t, "re.offfar"))
+			}
+		}
+		xe := clampExp(target/2 + int64(rapid.IntRange(-1000, 1000).Draw(t, "re.split")))
+		if rapid.IntRange(0, 3).Draw(t, "re.lopsided") == 0 {
+			xe = clampExp(int64(rapid.IntRange(-100, 100).Draw(t, "re.xe")))
+		}
+		ye := clampExp(target - xe)
+		xv := model.MkFinite(rapid.Bool().Draw(t, "re.xneg"), xd, xe)
+		yv := model.MkFinite(rapid.Bool().Draw(t, "re.yneg"), yd, ye)
+		prod := model.MulX(xv, yv).Val
+		c.X, c.Y = mk(xv, "x"), mk(yv, "y")
+		c.P = uint(rapid.IntRange(1, 60).Draw(t, "re.p"))
+		switch rapid.IntRange(0, 5).Draw(t, "re.u") {
+		case 0, 1:
+			c.U = h.GenSpecial(t, "u", "z")
+			if rapid.Bool().Draw(t, "re.uopp") {
+				c.U.Neg = !prod.Neg
+			}
+		case 2:
+			c.U = h.GenSpecial(t, "u", "i")
+		case 3:
+			// same end of the range, comparable magnitude, mostly the opposite sign
+			ue := clampExp(prod.Exp + int64(rapid.IntRange(-3, 3).Draw(t, "re.ue")))
+			c.U = mk(model.MkFinite(prod.Neg != (rapid.IntRange(0, 3).Draw(t, "re.usame") > 0), h.GenDigits(t, "re.ud", 30), ue), "u")
+		default:
+			c.U = fresh(h.GenFinite(t, "u", 40))
+			if prod.Exp <= model.MaxExp && prod.Exp >= model.MinExp {
+				// an in-range product is really aligned with the addend: keep them within gapLimit digits
+				c.U.E = clampExp(prod.Exp + int64(rapid.IntRange(-int(gapLimit()), int(gapLimit())).Draw(t, "re.ugap")))
+			}
+		}
+		c.Alias = rapid.SampledFrom([]string{"", "", "", "x", "u", "y"}).Draw(t, "alias")
 		return c
 	}
 	if rapid.IntRange(0, 11).Draw(t, "sparse") == 0 {
@@ -203,7 +256,11 @@ func genFMA(t *rapid.T, specials bool) C03Case {
 	return c
 }
 
-func genC03(t *rapid.T) C03Case { return genFMA(t, true) }
+func genC03(t *rapid.T) C03Case {
+	c := genFMA(t, true)
+	c.Zone = fmaProductOutOfRange(c)
+	return c
+}
 
 // fmaVars builds the variables of a case honouring its aliasing shape and
 // returns z, x, y, u. With aliasing, the shared variable takes the receiver's
@@ -263,7 +320,8 @@ func fmaVars(c C03Case) (z, x, y, u *decimal.Decimal, alias string) {
 // fmaProductOutOfRange: the exact product's exponent lies outside [MinExp, MaxExp]
 // although every operand is in range (known finding F-03c).
 func fmaProductOutOfRange(c C03Case) bool {
-	if c.X.F != "f" || c.Y.F != "f" {
+	if c.X.F != "f" || c.Y.F != "f" || c.U.F == "z" {
+		// (with a zero addend FMA is Mul, which rounds the product correctly at the range ends too)
 		return false
 	}
 	s := c.X.E + c.Y.E
@@ -287,6 +345,9 @@ func checkC03(c C03Case, o *h.Obs) *h.Fail {
 	z, x, y, u, alias := fmaVars(c)
 	nan := h.CatchNaN(func() { z.FMA(x, y, u) })
 	got := h.Read(z)
+	if c.Zone {
+		return checkFMAZone(c, o, want, nan, got, alias)
+	}
 
 	special := c.X.F != "f" || c.Y.F != "f" || c.U.F != "f"
 	o.Labelf("alias:%s", alias)
@@ -307,7 +368,7 @@ func checkC03(c C03Case, o *h.Obs) *h.Fail {
 				o.NonTrivial()
 			}
 		}
-		ex := model.AddX(model.MulX(xv, yv).Val, uv)
+		ex := model.AddXP(model.MulX(xv, yv).Val, uv, uint64(c.P))
 		o.Label("round:" + model.Classify(ex, uint64(c.P)))
 		if ex.Form == model.Zero {
 			o.Label("exact-zero-sum")
@@ -348,10 +409,54 @@ func checkC03(c C03Case, o *h.Obs) *h.Fail {
 	return nil
 }
 
+// checkFMAZone: inside the zone of known finding F-03c (the exact product's exponent is outside the range, the
+// addend is not zero) the strict oracle is not applied; instead the outcome must be, in full (ErrNaN or value,
+// sign, accuracy), either the fused result or the result of range-checking the product before the addition (the
+// listed finding). A repaired library passes through the first alternative; anything else is a new violation.
+func checkFMAZone(c C03Case, o *h.Obs, fused model.Res, nan bool, got h.Snap, alias string) *h.Fail {
+	if !fmaProductOutOfRange(c) {
+		return h.Failf("bad-case", "zone flag on a case outside the zone")
+	}
+	o.Label("f03c-zone")
+	o.NonTrivial()
+	xv, yv, uv := c.X.Val(), c.Y.Val(), c.U.Val()
+	two := model.FmaRangeChecked(xv, yv, uv, uint64(c.P), model.Mode(c.M))
+	matches := func(w model.Res) bool {
+		if w.NaN || nan {
+			return w.NaN == nan && got.Malformed == ""
+		}
+		return got.Malformed == "" && got.Val().Equal(w.V) && model.Acc(got.Acc) == w.Acc
+	}
+	switch {
+	case matches(fused):
+		o.Label("f03c-zone:fused-result")
+	case matches(two):
+		o.Label("f03c-zone:range-checked-product")
+	default:
+		desc := func(w model.Res) string {
+			if w.NaN {
+				return "ErrNaN"
+			}
+			return fmt.Sprintf("%v (%v)", w.V, w.Acc)
+		}
+		g := fmt.Sprintf("%v (%v)", got.Val(), model.Acc(got.Acc))
+		if nan {
+			g = "ErrNaN"
+		} else if got.Malformed != "" {
+			g = "malformed " + got.Malformed
+		}
+		return h.Failf("zone", "FMA(%v, %v, %v) prec %d %v alias=%q: got %s; the fused result is %s, and with the product range-checked first (known finding F-03c) %s", xv, yv, uv, c.P, model.Mode(c.M), alias, g, desc(fused), desc(two))
+	}
+	if !nan && (got.Prec != c.P || got.Mode != c.M) {
+		return h.Failf("attrs", "receiver attributes changed: %v", got)
+	}
+	return nil
+}
+
 const ruleC03 = "rapid-generated (x, y, u, precision, mode, aliasing shape): small scope (1-3 digit operands, precision 1-4), massive cancellation u=-(x*y)+delta, products carrying a tie/all-nines pattern at the precision with u one unit far below (single vs double rounding), products with one to three significant digits (often exact powers of ten, 2^i * 5^i) with the addend placed within two digits of the receiver's last digit position and mostly of opposite sign (the sum crosses a decade), sparse multi-word products 1 0..0 d 0..0 d against an addend -(99..9) one exponent below (decade-crossing cancellation that brings deep product digits to the front), zero and infinite operands in every position, product exponent near the range ends, generic word-patterned operands up to 300 (quick) / 4000 (thorough) digits; receiver fresh or aliased to x, y, u, x=y, x=u. Oracle: exact big.Int x*y+u rounded once (value, sign incl. IEEE zero-sum rule, accuracy), ErrNaN exactly for 0*Inf and Inf-Inf. Non-trivial = special operand, aliased receiver, Mul-then-Add would differ, exactly zero sum, or cancellation removing at least half of the product's digits. Cases whose exact product exponent leaves [MinExp,MaxExp] are excluded while the known finding F-03c is listed (counted under excluded_known)."
 
 var propC03 = &h.Prop[C03Case]{ID: "C03", Rule: ruleC03, Gen: genC03, Check: checkC03,
-	Matchers: map[string]func(C03Case) bool{"fma-product-exp-out-of-range": fmaProductOutOfRange}}
+	Matchers: map[string]func(C03Case) bool{"fma-product-exp-out-of-range": func(c C03Case) bool { return !c.Zone && fmaProductOutOfRange(c) }}}
 
 func TestC03(t *testing.T)       { propC03.Search(t) }
 func TestC03Replay(t *testing.T) { propC03.Replay(t) }
